@@ -802,6 +802,31 @@ fn gen_cfg(rng: &mut Rng, hostile: bool) -> (String, String, String) {
     (h(&prefix), list_or(&tags, "-"), cid)
 }
 
+/// fixed corner configurations (independent of the seed): empty strings in every position of the client's
+/// defaults, alone and repeated
+fn corner_cfgs(out: &mut impl Write, rng: &mut Rng, count: &mut u64) {
+    let tagsets = ["~-", "-:-", "~-,~-", "6b:-", "-:76", "~61", "~-,6b:76", "6b:76,~-", "-"];
+    let cids = ["~", "-", "63"];
+    let prefixes = ["-", "70", "702e"];
+    for (i, tags) in tagsets.iter().enumerate() {
+        for (j, cid) in cids.iter().enumerate() {
+            let cfg = (prefixes[(i + j) % 3].to_string(), tags.to_string(), cid.to_string());
+            let mut calls = Vec::new();
+            for (n, entry) in ["count_i64", "time_u64", "gauge_u64", "meter_u64", "hist_u64", "dist_u64", "set_i64", "incr"].iter().enumerate() {
+                let val = gen_val(rng, entry_type(entry));
+                let bops = match n % 4 {
+                    0 => "-".to_string(),
+                    1 => "V-".to_string(),
+                    2 => "T-:-".to_string(),
+                    _ => "C-".to_string(),
+                };
+                calls.push(format!("{}/{}/{}/{}/{}/a", entry, if n % 2 == 0 { "t" } else { "s" }, h("k"), val, bops));
+            }
+            emit_fmt(out, &cfg, &calls, count);
+        }
+    }
+}
+
 /// builder ops for a subset mask of {rate, tags, container, timestamp}; extra repetitions sometimes
 fn gen_bops(rng: &mut Rng, mask: u32, hostile: bool) -> String {
     let mut ops: Vec<String> = Vec::new();
@@ -1018,6 +1043,7 @@ fn main() {
     let mut count = 0u64;
     let (ncfg, nhost, nseq, nstd) = if tier == "quick" { (40, 8, 400, 600) } else { (600, 120, 8000, 20000) };
     exhaustive_outcomes(&mut out, &mut count);
+    corner_cfgs(&mut out, &mut rng, &mut count);
     for _ in 0..ncfg {
         let cfg = gen_cfg(&mut rng, false);
         sweep_cfg(&mut out, &mut rng, &cfg, false, &mut count);
